@@ -185,6 +185,53 @@ def handleNetif (j : Json) : R Json := do
     ("model", jObj [("mac", Json.str (String.ofList o.mac)), ("bcast", jOpt jNat o.bcast)]),
     ("spec", jObj [("mac", Json.str (String.ofList specMac)), ("bcast", jOpt jNat specB)])]
 
+/-- what the statement expects of ONE record, read off the specification (MAC completed; on Windows
+    the bit-wise broadcast address when the netmask is a prefix of the family's width; else as handed back) -/
+def specRecord (windows : Bool) (r : RawAddr) : List Char × Option Nat :=
+  let sep := if windows then '-' else ':'
+  let specMac := if r.fam == .link then Spec.macPadded sep r.mac else r.mac
+  let specB : Option Nat :=
+    if windows && r.fam == .inet then
+      match r.plen with
+      | some n => if n ≤ 32 then some (specBroadcast r.ip n) else r.bcast
+      | none => r.bcast
+    else if windows && r.fam == .inet6 then
+      match r.plen with
+      | some n => if n ≤ 128 then some (specBroadcastW 128 r.ip n) else r.bcast
+      | none => r.bcast
+    else r.bcast
+  (specMac, specB)
+
+def famTag : AddrFam → String
+  | .inet => "inet" | .inet6 => "inet6" | .link => "link" | .other => "other"
+
+def parseRaw (j : Json) : R (Nat × RawAddr) := do
+  let nic ← natF j "nic"
+  let fam ← strF j "fam" >>= parseAddrFam
+  let mac ← strF j "mac"
+  let ip ← natF j "ip"
+  let plen ← optF asNat j "plen"
+  let bcast ← optF asNat j "bcast"
+  return (nic, ⟨fam, mac.toList, ip, plen, bcast⟩)
+
+/-- one call of `net_if_addrs()` on a whole native answer: the model's appended pairs in order, and
+    per native record (input order) what the specification expects of it on its own -/
+def handleNetifs (j : Json) : R Json := do
+  let windows ← boolF j "windows"
+  let kLink ← natF j "key_link"
+  let kInet ← natF j "key_inet"
+  let kInet6 ← natF j "key_inet6"
+  let key : AddrFam → Nat := fun f => match f with
+    | .link => kLink | .inet => kInet | .inet6 => kInet6 | .other => 1000000
+  let rs ← listF parseRaw j "recs"
+  let out := netIfAddrs cfg windows key rs
+  let jRec (nic : Nat) (fam : AddrFam) (mac : List Char) (ip : Nat) (b : Option Nat) : Json :=
+    jObj [("nic", jNat nic), ("fam", Json.str (famTag fam)), ("mac", Json.str (String.ofList mac)),
+          ("ip", jNat ip), ("bcast", jOpt jNat b)]
+  return jObj [
+    ("model", jList (fun o => jRec o.1 o.2.fam o.2.mac o.2.ip o.2.bcast) out),
+    ("spec", jList (fun x => let s := specRecord windows x.2; jRec x.1 x.2.fam s.1 x.2.ip s.2) rs)]
+
 /-- the other platform-conditional branches of the front end: model value and documented value -/
 def handleFront (j : Json) : R Json := do
   let fn ← strF j "fn"
@@ -362,6 +409,7 @@ def handle (_ : Unit) (j : Json) : R (Unit × Json) := do
     else if op == "fault2" then handleFault2 j
     else if op == "record" then handleRecord j
     else if op == "netif" then handleNetif j
+    else if op == "netifs" then handleNetifs j
     else if op == "api" then handleApi j
     else if op == "front" then handleFront j
     else if op == "front2" then handleFront2 j
